@@ -124,7 +124,7 @@ fn run(args: Args) {
         let ones = ones_of(idx.ib());
         let ls = line_starts(&text);
         let bp = idx.bp();
-        let nodes_ok = bp.rank1(bp.len()) == ones.len();
+        let nodes_ok = guarded(|| bp.rank1(bp.len()) == ones.len()).unwrap_or(false);
         if !nodes_ok {
             cut += 1;
         }
